@@ -170,7 +170,9 @@ class PathCtx:
     def real_to_str(self, x) -> SStr:
         zx = real_z(x)
         s = SStr(self._real2str(zx))
-        self.axiom(self._str2real(s.z) == zx, "ntos.roundtrip")
+        from .sym import str_const
+
+        self.axiom(z3.And(self._str2real(s.z) == zx, s.z != str_const("")), "ntos.roundtrip_and_nonempty")
         return s
 
     def input(self, name, sort):
